@@ -496,12 +496,23 @@ def rdHeaderPart (fl : Flavor) : P (List Int) := fun s =>
   | .error e => .error e
   | .ok (a, r) => .ok (wordsOf fl fl.ibytes 7 a, r)
 
+/-- arithmetic on the declared counts that overflows before anything is checked against the file:
+    `ref_part_first(nnode, nproc, 1)` forms `nnode + nproc` and `nnode - 1` in `long` (ref_part_node), and
+    ref_part_bin_ugrid_cell forms `size_per * chunk` in `int` for `ref_malloc(sent_c2n, …)` -/
+def partCountHazard (np : Nat) (hdr : List Int) : Bool :=
+  let nnode := hdr.getD 0 0
+  decide (nnode + (np : Int) ≥ 2 ^ 63 ∨ nnode ≤ -(2 ^ 63 : Int)) ||
+  Kind.all.any fun k =>
+    let ncell := hdr.getD k.hdrIndex 0
+    decide (0 < ncell ∧ (k.sizePer : Int) * (UgridOffsets.part_chunk wrap32 ncell np) ≥ 2 ^ 31)
+
 /-- `ref_part_bin_ugrid` on `np` ranks -/
 def partRead (fl : Flavor) (np : Nat) (chunkOverride : Option Nat) (bs : Bytes) : Except Status PartMesh :=
   match rdHeaderPart fl bs with
   | .error e => .error e
   | .ok (hdr, s) =>
   let nnode := hdr.getD 0 0
+  if nnode + (np : Int) ≥ 2 ^ 63 ∨ nnode ≤ -(2 ^ 63 : Int) then .error .undefined else
   -- ref_part_node: `ref_part_first(nnode, np, part)` nodes per rank, every `fread` checked; a count ≤ 0 reads nothing
   match rdVerts fl nnode.toNat s with
   | .error e => .error e
